@@ -235,4 +235,23 @@ def Item.rendered (it : Item) : List Nat := it.text ++ (if it.crlf then [CR, LF]
 /-- the text the child wrote -/
 def render (items : List Item) : List Nat := items.flatMap Item.rendered
 
+/-! ## Several connections in one process
+
+Every `StdioClient` object has its own decoder state, buffer, `BatchProcessor` and streams; nothing
+is shared at module or class level.  `runTagged` plays one event history in which every event
+belongs to one of several live connections (tag = connection). -/
+
+def update {α : Type} (f : Nat → α) (i : Nat) (a : α) : Nat → α := fun j => if j = i then a else f j
+
+def runTagged {μ : Type} (cfg : Cfg μ) : (Nat → St) → List (Nat × Ev) → (Nat → St) × List (Nat × Out μ)
+  | s, [] => (s, [])
+  | s, (i, e) :: es =>
+    let r := step cfg (s i) e
+    let r' := runTagged cfg (update s i r.1) es
+    (r'.1, r.2.map (fun o => (i, o)) ++ r'.2)
+
+/-- the events / outputs of connection `i` -/
+def ofConn {α : Type} (i : Nat) (l : List (Nat × α)) : List α :=
+  l.filterMap (fun p => if p.1 = i then some p.2 else none)
+
 end Verif.Model.StdioIn
